@@ -1,0 +1,22 @@
+// SPDX-FileCopyrightText: 2020-present Open Networking Foundation <info@opennetworking.org>
+//
+// SPDX-License-Identifier: Apache-2.0
+
+//go:build verif
+
+package admin
+
+import (
+	"github.com/onosproject/onos-config/pkg/pluginregistry"
+	"github.com/onosproject/onos-config/pkg/store/v2/configuration"
+	"github.com/onosproject/onos-config/pkg/store/v2/transaction"
+)
+
+// NewServerForVerif returns the admin server exactly as Service.Register builds it
+func NewServerForVerif(transactionsStore transaction.Store, configurationsStore configuration.Store, pluginRegistry pluginregistry.PluginRegistry) *Server {
+	return &Server{
+		transactionsStore:   transactionsStore,
+		configurationsStore: configurationsStore,
+		pluginRegistry:      pluginRegistry,
+	}
+}
